@@ -61,25 +61,91 @@ impl FilterTable {
 
 include!("flavour.rs");
 
+fn attr_pairs(v: &Value) -> Vec<(String, String)> {
+    v.as_array().unwrap().iter().map(|p| (p[0].as_str().unwrap().to_string(), p[1].as_str().unwrap().to_string())).collect()
+}
+
+macro_rules! dot_attr_impl {
+    () => {
+        fn dot_attr(&self, spec: &Value) -> Value {
+            let g = self.graph.as_ref().unwrap();
+            let gattr = |_: &Graph<K, N, E>| -> Option<Vec<(String, String)>> {
+                if spec["gattr"].is_null() { None } else { Some(attr_pairs(&spec["gattr"])) }
+            };
+            let nattr = |n: &Node<K, N, E>| -> Option<Vec<(String, String)>> {
+                if let Some(rows) = spec["nattr"].as_array() {
+                    for r in rows {
+                        if us(&r[0]) == *n.key() { return Some(attr_pairs(&r[1])); }
+                    }
+                }
+                None
+            };
+            let eattr = |u: &Node<K, N, E>, v: &Node<K, N, E>, _e: &E| -> Option<Vec<(String, String)>> {
+                if let Some(rows) = spec["eattr"].as_array() {
+                    for r in rows {
+                        if us(&r[0]) == *u.key() && us(&r[1]) == *v.key() { return Some(attr_pairs(&r[2])); }
+                    }
+                }
+                None
+            };
+            json!(g.to_dot_with_attr(&gattr, &nattr, &eattr))
+        }
+    };
+}
+
+macro_rules! directed_graph_steps {
+    () => {
+        impl World {
+            dot_attr_impl!();
+            fn step_graph_flavour(&self, op: &str, a: &Vec<Value>) -> Value {
+                let g = self.graph.as_ref().unwrap();
+                match op {
+                    "g_roots" => json!(g.roots().iter().map(|n| self.alias_of(n)).collect::<Vec<_>>()),
+                    "g_leaves" => json!(g.leaves().iter().map(|n| self.alias_of(n)).collect::<Vec<_>>()),
+                    "g_scc" => json!(g.scc().iter().map(|c| c.iter().map(|n| *n.key()).collect::<Vec<_>>()).collect::<Vec<_>>()),
+                    "g_to_dot_attr" => self.dot_attr(&a[1]),
+                    x => json!({"error": format!("unknown step {}", x)}),
+                }
+            }
+        }
+    };
+}
+
 mod fl_digraph {
     use super::*;
     use gdsl::digraph::*;
     flavour_impl!(directed);
+    directed_graph_steps!();
 }
 mod fl_sync_digraph {
     use super::*;
     use gdsl::sync_digraph::*;
     flavour_impl!(directed);
+    directed_graph_steps!();
 }
 mod fl_ungraph {
     use super::*;
     use gdsl::ungraph::*;
     flavour_impl!(undirected);
+    impl World {
+        dot_attr_impl!();
+        fn step_graph_flavour(&self, op: &str, a: &Vec<Value>) -> Value {
+            match op {
+                "g_to_dot_attr" => self.dot_attr(&a[1]),
+                x => json!({"error": format!("unknown step {}", x)}),
+            }
+        }
+    }
 }
 mod fl_sync_ungraph {
     use super::*;
     use gdsl::sync_ungraph::*;
     flavour_impl!(undirected);
+    impl World {
+        fn step_graph_flavour(&self, op: &str, a: &Vec<Value>) -> Value {
+            json!({"error": format!("unknown step {}", op)})
+        }
+    }
 }
 
 fn run_scenario(scen: Value, tx: mpsc::Sender<Value>) {
